@@ -181,9 +181,17 @@ func gen(t *rapid.T) Case {
 	// sixth seed batch: one fully qualified name declared by two files (the same class in two modules of a
 	// multi-module build): each declaration has its own entry
 	if rapid.IntRange(0, 5).Draw(t, "twinDeclaration") == 5 {
+		gitignore := ""
+		for _, f := range p.Files {
+			if f.Path == ".gitignore" {
+				gitignore = f.Text
+			}
+		}
 		var mains []int
 		for i, u := range p.Units {
-			if u.Role == "main" && !longFeature(u) {
+			// (a main file that a negated pattern of the .gitignore brings back - XStub.java, XGen.java - is left alone:
+			// its copy elsewhere is not named by that pattern and stays ignored)
+			if u.Role == "main" && !longFeature(u) && !strings.HasSuffix(u.Name, "Stub") && !strings.HasSuffix(u.Name, "Gen") && !strings.Contains(gitignore, u.Name+".java") {
 				mains = append(mains, i)
 			}
 		}
